@@ -260,6 +260,117 @@ function refMember(s, v, defs, fuel = 60) {
   }
 }
 
+// ---------------------------------------------------------------------------------------------- JSON Schema (C02)
+// Draft 2020-12 evaluator for the vocabulary beff emits, symbol-aware.  An unknown keyword makes the document ill-formed.
+class IllFormed extends Error {}
+const ANNOTATIONS = new Set(['description', 'title', 'format', 'discriminator', 'default', 'examples', '$schema', '$id', '$defs', 'definitions', 'components', '$comment', 'deprecated', 'readOnly', 'writeOnly']);
+function pointer(root, ref) {
+  if (typeof ref !== 'string' || !ref.startsWith('#/')) throw new IllFormed('unsupported $ref ' + JSON.stringify(ref));
+  let cur = root;
+  for (const seg of ref.slice(2).split('/')) {
+    const k = seg.replace(/~1/g, '/').replace(/~0/g, '~');
+    if (cur === null || typeof cur !== 'object' || !Object.prototype.hasOwnProperty.call(cur, k)) throw new IllFormed('$ref does not resolve: ' + ref);
+    cur = cur[k];
+  }
+  return cur;
+}
+function typeIs(t, v) {
+  switch (t) {
+    case 'string': return T_(v) === 'string';
+    case 'number': return T_(v) === 'number';
+    case 'integer': return T_(v) === 'number' && $S.mcall(Number, 'isInteger', [v]);
+    case 'boolean': return T_(v) === 'boolean';
+    case 'null': return EQ(v, null);
+    case 'array': return $S.mcall(Array, 'isArray', [v]);
+    case 'object': return T_(v) === 'object' && !EQ(v, null) && !$S.mcall(Array, 'isArray', [v]);
+    default: throw new IllFormed('unknown type ' + JSON.stringify(t));
+  }
+}
+function jsonEq(a, v) {
+  if (a === null || typeof a !== 'object') return EQ(v, a);
+  if (Array.isArray(a)) { if (!$S.mcall(Array, 'isArray', [v]) || v.length !== a.length) return false; for (let i = 0; i < a.length; i++) if (!jsonEq(a[i], v[i])) return false; return true; }
+  if (T_(v) !== 'object' || EQ(v, null) || $S.mcall(Array, 'isArray', [v])) return false;
+  const ka = Object.keys(a), kv = Object.keys(v);
+  if (ka.length !== kv.length) return false;
+  for (const k of ka) if (!Object.prototype.hasOwnProperty.call(v, k) || !jsonEq(a[k], v[k])) return false;
+  return true;
+}
+function jsonValid(S_, v, root, fuel = 80) {
+  if (fuel <= 0) throw new IllFormed('schema reference cycle without progress');
+  if (S_ === true) return true;
+  if (S_ === false) return false;
+  if (S_ === null || typeof S_ !== 'object' || Array.isArray(S_)) throw new IllFormed('schema is not an object or boolean: ' + JSON.stringify(S_));
+  for (const kw of Object.keys(S_)) {
+    const x = S_[kw];
+    if (ANNOTATIONS.has(kw)) continue;
+    switch (kw) {
+      case '$ref': if (!jsonValid(pointer(root, x), v, root, fuel - 1)) return false; break;
+      case 'type': if (Array.isArray(x)) { if (!x.some((t) => typeIs(t, v))) return false; } else if (!typeIs(x, v)) return false; break;
+      case 'const': if (!jsonEq(x, v)) return false; break;
+      case 'enum': if (!Array.isArray(x)) throw new IllFormed('enum is not an array'); if (!x.some((c) => jsonEq(c, v))) return false; break;
+      case 'properties': {
+        if (x === null || typeof x !== 'object' || Array.isArray(x)) throw new IllFormed('properties is not an object');
+        if (T_(v) === 'object' && !EQ(v, null) && !$S.mcall(Array, 'isArray', [v])) for (const k of Object.keys(x)) if (Object.prototype.hasOwnProperty.call(v, k) && !jsonValid(x[k], v[k], root, fuel - 1)) return false;
+        break;
+      }
+      case 'required': {
+        if (!Array.isArray(x) || !x.every((k) => typeof k === 'string')) throw new IllFormed('required is not an array of strings');
+        if (T_(v) === 'object' && !EQ(v, null) && !$S.mcall(Array, 'isArray', [v])) for (const k of x) if (!Object.prototype.hasOwnProperty.call(v, k)) return false;
+        break;
+      }
+      case 'additionalProperties': {
+        if (T_(v) === 'object' && !EQ(v, null) && !$S.mcall(Array, 'isArray', [v])) {
+          const declared = S_.properties ? Object.keys(S_.properties) : [];
+          for (const k of Object.keys(v)) if (!declared.includes(k) && !jsonValid(x, v[k], root, fuel - 1)) return false;
+        }
+        break;
+      }
+      case 'propertyNames': if (T_(v) === 'object' && !EQ(v, null) && !$S.mcall(Array, 'isArray', [v])) for (const k of Object.keys(v)) if (!jsonValid(x, k, root, fuel - 1)) return false; break;
+      case 'prefixItems': {
+        if (!Array.isArray(x)) throw new IllFormed('prefixItems is not an array');
+        if ($S.mcall(Array, 'isArray', [v])) for (let i = 0; i < Math.min(x.length, v.length); i++) if (!jsonValid(x[i], v[i], root, fuel - 1)) return false;
+        break;
+      }
+      case 'items': {
+        if (Array.isArray(x)) throw new IllFormed('array-valued items (Draft 7 tuple form) is not Draft 2020-12');
+        if ($S.mcall(Array, 'isArray', [v])) { const from = Array.isArray(S_.prefixItems) ? S_.prefixItems.length : 0; for (let i = from; i < v.length; i++) if (!jsonValid(x, v[i], root, fuel - 1)) return false; }
+        break;
+      }
+      case 'minItems': if ($S.mcall(Array, 'isArray', [v]) && v.length < x) return false; break;
+      case 'maxItems': if ($S.mcall(Array, 'isArray', [v]) && v.length > x) return false; break;
+      case 'anyOf': { if (!Array.isArray(x) || x.length === 0) throw new IllFormed('anyOf must be a non-empty array'); let ok = false; for (const b of x) if (jsonValid(b, v, root, fuel - 1)) { ok = true; break; } if (!ok) return false; break; }
+      case 'oneOf': { if (!Array.isArray(x) || x.length === 0) throw new IllFormed('oneOf must be a non-empty array'); let n = 0; for (const b of x) if (jsonValid(b, v, root, fuel - 1)) n++; if (n !== 1) return false; break; }
+      case 'allOf': { if (!Array.isArray(x) || x.length === 0) throw new IllFormed('allOf must be a non-empty array'); for (const b of x) if (!jsonValid(b, v, root, fuel - 1)) return false; break; }
+      case 'not': if (jsonValid(x, v, root, fuel - 1)) return false; break;
+      case 'pattern': { let re; try { re = new RegExp(x, 'u'); } catch (e) { throw new IllFormed('pattern is not an ECMA-262 regular expression: ' + JSON.stringify(x)); } if (T_(v) === 'string' && !$S.mcall(new RegExp(x), 'test', [v])) return false; break; }
+      default: throw new IllFormed('keyword ' + JSON.stringify(kw) + ' is not in the Draft 2020-12 vocabulary beff is expected to emit');
+    }
+  }
+  return true;
+}
+function allRefs(S_, out = []) { if (S_ && typeof S_ === 'object') { if (typeof S_.$ref === 'string') out.push(S_.$ref); for (const k of Object.keys(S_)) allRefs(S_[k], out); } return out; }
+
+// required keys are own properties at every object position (TypeScript membership; the validator also accepts a missing key whose type admits undefined)
+function requiredPresent(s, v, g = 0) {
+  if (g > 40) return true;
+  switch (s.t) {
+    case 'object': {
+      if (!isObj(v) || Array.isArray(v)) return true;
+      for (const k of Object.keys(s.props)) { const p = s.props[k]; const has = Object.prototype.hasOwnProperty.call(v, k); if (p.t !== 'optional' && !has) return false; if (has && !requiredPresent(p, v[k], g + 1)) return false; }
+      if (s.index && s.index.length) for (const k of Object.keys(v)) if (!Object.prototype.hasOwnProperty.call(s.props, k) && !s.index.some((p) => requiredPresent(p.value, v[k], g + 1))) return false;
+      return true;
+    }
+    case 'optional': return v == null || requiredPresent(s.x, v, g + 1);
+    case 'array': return !Array.isArray(v) || v.every((e) => requiredPresent(s.x, e, g + 1));
+    case 'tuple': return !Array.isArray(v) || (v.length >= s.prefix.length && v.every((e, i) => (i < s.prefix.length ? requiredPresent(s.prefix[i], e, g + 1) : s.rest ? requiredPresent(s.rest, e, g + 1) : true)));
+    case 'anyof': return s.xs.some((b) => acceptsDefault(b, v) && requiredPresent(b, v, g + 1));
+    case 'allof': return s.xs.every((b) => requiredPresent(b, v, g + 1));
+    case 'disc': { if (!isObj(v)) return true; for (const key of Object.keys(s.mapping)) if ($S.bin('===', v[s.key], key)) { const m = s.mapping[key]; return requiredPresent({ t: 'object', props: Object.assign({ [s.key]: { t: 'const', v: key } }, m.props), index: m.index }, v, g + 1); } return true; }
+    case 'ref': return requiredPresent(job.defs[s.name], v, g + 1);
+    default: return true;
+  }
+}
+
 function resolveSpec(s) { let g = 0; while (s.t === 'ref' && g++ < 20) s = job.defs[s.name]; return s; }
 
 // ---------------------------------------------------------------------------------------------- main
@@ -278,6 +389,14 @@ const optionSets = job.options || [{}];
 
 let parserB = job.specB ? rt.buildParserFromRuntype(build(job.specB), 'T', false) : null;
 if (job.moduleB) { const modB = await import(job.moduleB); parserB = modB.parsers[job.parserB]; if (!parserB) throw new Error('parser B not found'); }
+// schema documents of the parser under test (concrete runs of the real schema printer)
+const schemaDocs = [];
+if (props.includes('C02')) {
+  const mk = (label, f) => { try { schemaDocs.push(Object.assign({ label }, f())); } catch (e) { schemaDocs.push({ label, threw: String(e && e.message).slice(0, 160) }); } };
+  if (!job.recursive) mk('flat', () => { const J = parser.schema(); return { root: J, J }; });      // the flat schema is claimed for non-recursive types only
+  mk('contextual #/$defs', () => { const c = new rt.SchemaPrintingContext({ refPathTemplate: '#/$defs/{name}', definitionContainerKey: '$defs' }); const J = parser.schemaWithContext(c); const d = c.exportDefinitions(); return { root: Object.assign({}, J, d), J }; });
+  mk('contextual #/components/schemas', () => { const c = new rt.SchemaPrintingContext({ refPathTemplate: '#/components/schemas/{name}', definitionContainerKey: null }); const J = parser.schemaWithContext(c); const d = c.exportDefinitions(); return { root: Object.assign({}, J, { components: { schemas: d } }), J }; });
+}
 function isParseFailure(e) { return e instanceof Error && typeof e.message === 'string' && e.message.startsWith('Failed to parse '); }
 
 function body(input) {
@@ -339,6 +458,18 @@ function body(input) {
     if (props.includes('C13') && parserB) {
       const vb = parserB.validate(input, opts);
       if (vb !== v) V('C13', `validators with equal hash256 disagree: ${v} vs ${vb}`);
+    }
+    if (props.includes('C02') && !opts.disallowExtraProperties) {
+      for (const doc of schemaDocs) {
+        if (doc.threw) { if (!job.expectSchemaThrows) V('C02', `schema printing (${doc.label}) throws: ${doc.threw}`); continue; }
+        if (job.expectSchemaThrows) { V('C02', `schema printing (${doc.label}) does not throw for a type JSON Schema cannot express`); continue; }
+        let ok;
+        try { ok = jsonValid(doc.J, input, doc.root); } catch (e) { if (e instanceof IllFormed) { V('C02', `emitted schema (${doc.label}) is not well-formed: ${e.message}`); continue; } throw e; }
+        const noX = v === true && noExtra(job.spec, input);
+        const exact = noX && requiredPresent(job.spec, input);
+        if (ok && !noX) V('C02', `document is valid against the schema (${doc.label}) but ${v ? 'carries an undeclared key' : 'is rejected by the validator'}`);
+        if (!ok && exact && job.nullFree) V('C02', `null-free exact member of the type is not valid against the schema (${doc.label})`);
+      }
     }
     if (props.includes('C01') && !opts.disallowExtraProperties) {
       const exp = refMember(job.expected, input, job.expectedDefs || {});
